@@ -430,6 +430,19 @@ def main():
     for co in pinfo.get("config_obligations", []):
         oid = "config::" + co["id"]
         obligations.append(oid)
+        if co.get("kind") == "clap_flags":
+            import clapflags
+            st, detail = clapflags.check(REPO, co)
+            rec = {"id": oid, "kind": "config", "source": ", ".join(x[0] for x in co["declared_in"]), "backend": "mechanical reading of clap derive attributes and of the written flag literals (vx/clapflags.py)",
+                   "status": {"ok": "discharged", "violation": "FAILED", "undecided": "undecided"}[st], "detail": detail, "solver_ms": 0, "rlimit": None}
+            fn_records.append(rec)
+            if st == "ok":
+                discharged.append(oid)
+            elif st == "violation":
+                violations.append((oid, [{"msg": "configuration obligation not met: " + detail, "at": co["file"], "clause": co["why"], "line": None, "src_line": None, "rendered": detail}], None))
+            else:
+                undecided.append(f"{oid}: {detail}")
+            continue
         path = os.path.join(REPO, co["file"])
         try:
             txt = open(path).read()
